@@ -326,6 +326,9 @@ RULE = ("bfs: every sequence of length <= 3 (quick) / <= 4 (thorough) over 12 co
         "without '=') on tracks of 1..5 fixes, invariant checked after every step. Non-trivial: the history deletes a feature that is not the "
         "last created, or deletes and recreates a name, or evaluates an expression after a delete. Distinct = hash of the operation list.")
 
+# coverage-guided stage of the thorough tier (vt/fuzz.py): sub-check -> libFuzzer executions
+FUZZ = {'random_histories': 8000}
+
 SUBCHECKS = [
     SubCheck("bfs", body_history, enum=enum_histories, rule="all short histories", qshards=8),
     SubCheck("random_histories", body_history, strategy=lambda: strat_history(30), quick=1500, thorough=40000),
